@@ -6,6 +6,7 @@ of requests the servers receive; worlds (`w`) range over ALL listener tables and
 import LfsModel.Gen
 import LfsModel.RedirectProofs
 import LfsModel.Redirect
+import LfsModel.CredCache
 
 namespace C10
 open Rd2
@@ -63,5 +64,27 @@ theorem d26_http_to_https_keeps_header :
 example : runAuth { lsts := [⟨.http, 1, some 8080⟩, ⟨.https, 2, none⟩],
                     nodes := [⟨0, .needauth, 1, .abs, true⟩, ⟨1, .final, 0, .abs, false⟩] } (fun _ => true) 4 false ⟨0, 0, none, false⟩
     = [⟨0, 0, none, false⟩, ⟨0, 0, some 0, false⟩, ⟨1, 1, some 1, false⟩] := by decide
+
+/-! ### credential source "cache" (creds/creds.go: credentialCacher) -/
+
+/-- whatever sequence of fills, approvals and rejections a command performs on its in-process
+    credential cache, every credential the cache hands out was obtained for exactly the
+    (protocol, host[:port], path) it is being asked about — the cache cannot carry a credential
+    from one place to another -/
+theorem cache_confined (ops : List CredCache.Op) :
+    ∀ o ∈ (CredCache.run [] ops).2, ∀ v, o = some v → ∃ k, v.origin = k ∧ CredCache.Op.fill k ∈ ops :=
+  CredCache.run_confined ops [] CredCache.inv_nil
+
+theorem cache_hit_is_for_the_asked_key (ops : List CredCache.Op) (k : CredCache.Key) (v : CredCache.Cred)
+    (h : CredCache.fill (CredCache.run [] ops).1 k = some v) : v.origin = k :=
+  CredCache.fill_confined _ k v (CredCache.run_inv ops [] CredCache.inv_nil) h
+
+/-- a rejected credential is not offered again -/
+theorem cache_reject_forgets (c : CredCache.Cache) (k : CredCache.Key) :
+    CredCache.fill (CredCache.reject c k) k = none := CredCache.reject_misses c k
+
+/-- non-vacuity: approved for port 8080, asked for port 9090 of the same host: a miss -/
+example : (CredCache.run [] [.approve ⟨⟨[104], [97, 58, 56], []⟩, 7⟩, .fill ⟨[104], [97, 58, 57], []⟩, .fill ⟨[104], [97, 58, 56], []⟩]).2
+    = [none, none, some ⟨⟨[104], [97, 58, 56], []⟩, 7⟩] := by decide
 
 end C10
